@@ -70,6 +70,18 @@ CHECKS = {
         design="DESIGN.md 5 (C06)",
         technique="TLA+ spec + TLC; spec->code replay under rigid motions; code->spec trace validation of relational laws",
     ),
+    "C08": dict(
+        engine="tla-ap",
+        text="MC_Monotone.tla derives, for every ranking of results annotated with the rung of a threshold ladder from which each pair becomes a TP, "
+        "the ranking of Ap.tla at every rung; TLC checks that TP sets only grow and AP / APH never decrease along the ladder for all rankings up to "
+        "length 3-4, and the lemma that promoting one FP of any ranking to a TP never lowers the declarative AP / APH. Every enumerated case is "
+        "realised as real object results and get_positive_objects, get_negative_objects and Ap are evaluated at each threshold and compared with "
+        "the specification per rung and for monotonicity; random result sets with random 5-rung ladders in all four matching modes are validated "
+        "as traces (TP subset chain, FN counts, AP, APH).",
+        note="ordinary ground truth only; exact for centre-distance ladders on constructed results, all modes in traces with a 1e-6 margin from rungs",
+        design="DESIGN.md 5 (C08)",
+        technique="TLA+ spec + TLC exhaustive; spec->code replay; code->spec trace validation",
+    ),
     "C09": dict(
         engine="tla-heading",
         text="Heading.tla defines the minimal yaw difference D on an angle grid Z/M, the APH weight (M/2 - D)/(M/2) and the admissible signed yaw "
